@@ -106,3 +106,13 @@ Definition overflow_ok_b (nw : network) : bool :=
   let '(od, _, _) := nw_overflow nw in
   (max_vehicles nw <=? total_capacity_of nw od) &&
   forallb (fun ty => max_vehicles nw <=? capacity_of nw od ty) (type_ids nw).
+
+(* activities have positive duration (part of "valid instance": route-segment duration > 0, slot end > start) *)
+Definition durations_pos_b (nw : network) : bool :=
+  forallb (fun '(_, n) => is_depot n || dt_ltb (n_start_time n) (n_end_time n)) (nw_nodes nw).
+Definition net_ok_b (nw : network) : bool := net_wf_b nw && durations_pos_b nw.
+
+(* the formation limit the properties speak of: the smaller of the type's and the route segment's limit *)
+Definition formation_limit (nw : network) (n : node_id) : option Z :=
+  omin (match vtype_of nw (vehicle_type_for nw n) with Some vt => vt_limit vt | None => None end)
+       (match nd nw n with NService s => st_limit s | _ => None end).
